@@ -114,7 +114,9 @@ def check(repo, rep):
         gets = [e for e in l.effects if e[0] == 'call' and pr.is_inbox_call(e[1], ('get', 'get_nowait'))]
         exc = [e for e in l.effects if e[0] == 'except']
         for g in gets:
-            rep.ob('the stop poll never blocks (get_nowait on the worker\'s own inbox)', g[1][1][2] == 'get_nowait', cx.where(poll[0], g[3]), '%s.%s:blocking' % (poll[1].name, poll[2].name))
+            t_ = g[1]
+            nonblock = t_[1][2] == 'get_nowait' or (t_[1][2] == 'get' and (t_[2][:1] == (('c', False),) or dict(t_[3]).get('block') == ('c', False)))      # get(False) / get(block=False) is get_nowait()
+            rep.ob('the stop poll never blocks (get_nowait on the worker\'s own inbox)', nonblock, cx.where(poll[0], g[3]), '%s.%s:blocking' % (poll[1].name, poll[2].name), 'the poll calls %s' % show(t_)[:60])
         if exc:
             sawE = True
             falsy = l.value in (('c', False), ('c', None), None) or l.outcome == 'fall'
@@ -217,6 +219,41 @@ def check(repo, rep):
     for v in sub.violations:
         if 'StreamSaverWorker' in v['construct']:
             rep.violations.append(v)
+    # ---------------------------------------------------------------- T5b the saved file survives the worker: the temporary file is removed only
+    # when it is a DIFFERENT file from the output (for wav output they are the same file)
+    from ..semantic import deep_leaves as _dl14, evaluator as _ev14, Undecided as _Und14
+    from ..termeval import NotEvaluable as _NE14
+    ac = cx.cls(MOD, 'AudioDataSaverWorker', required=False)
+    dd = cx.model.find_method(MOD, ac, '__del__') if ac is not None else None
+    if dd is not None:
+        TMP, OUT = ('attr', ('self',), '_tmp_output_filename'), ('attr', ('self',), '_output_filename')
+        try:
+            nrm = 0
+            for l in _dl14(cx, dd[0], ac, dd[2]):
+                rms = [e for e in l.effects if e[0] == 'call' and e[1][0] == 'call' and term_name(e[1][1]) in ('os.remove', 'os.unlink') and e[1][2] and e[1][2][0] == TMP]
+                if not rms:
+                    continue
+                nrm += 1
+                # can this path be taken when the temporary file IS the output file?
+                takeable = True
+                for ct, tr, _ in l.conds[:rms[0][4]]:
+                    if not any(x in (TMP, OUT) for x in walk(ct)):
+                        continue
+                    try:
+                        e_ = _ev14({TMP: 'rec.wave', OUT: 'rec.wave', ('attr', ('self',), '_exported'): True})
+                        got = e_.ev(ct)
+                    except _NE14:
+                        continue
+                    if e_.leaves:
+                        continue
+                    if bool(got) != tr:
+                        takeable = False
+                        break
+                rep.ob('the saver deletes its temporary file only when that is not the exported file itself', not takeable, cx.where(dd[0], rms[0][3]), 'AudioDataSaverWorker.__del__:removes-output',
+                       'os.remove(self._tmp_output_filename) is reachable with _tmp_output_filename == _output_filename', sample=dict(method='__del__', removes='_tmp_output_filename'))
+            rep.floor('temporary-file removals examined', nrm, 1)
+        except _Und14 as exc:
+            rep.unknown('AudioDataSaverWorker.__del__: %s' % exc)
     # ---------------------------------------------------------------- T6 the CLI interrupt handler
     mfn = cx.fn('cmdline', 'main')
     handlers = []
